@@ -304,3 +304,46 @@ PROPS["C16"] = {
         "thorough": {"partB.singles_checked": 100000, "partB.combinations_checked": 100000},
     },
 }
+
+PROPS["C12"] = {
+    "level": "fault_enumeration",
+    "exhaustive": True,
+    "rule": "workload = (library-written image with mini and regular streams in both versions, read-only call script: open, walk, lookups, "
+            "per stream ~14 buffered reads in odd chunk sizes / fill_buf+consume / forward and backward seeks through a 1024-byte buffer, "
+            "read_to_end) on a Read+Seek-only backend; the fault-free run counts the N underlying read/seek calls; then a one-shot failure "
+            "is injected at EVERY position k < N (kinds Other, UnexpectedEof, TimedOut, plus 'short then fail'), each API call is retried "
+            "up to 3x after an error; pairs (k1,k2) exhaustively when N <= 150 else 1500 (quick) / 20000 (thorough) sampled pairs. One "
+            "workload per shard in quick (16), 6 per shard in thorough. evaluations = faulty runs; distinct_nontrivial = distinct "
+            "(workload, position, variant) triples; exhaustive = every workload's single-fault positions were all visited",
+    "assumptions": COMMON_ASSUMPTIONS + ["raw read counts after a fault may differ from the fault-free run (only exact-valued calls are compared with it); bytes are checked against the stream's true content at the model position"],
+    "checked_share": 0.5,
+    "quick": {"budget_s": 40},
+    "thorough": {"budget_s": 400},
+    "floors": {
+        "quick": {"exhaustive_workloads": 16, "positions_visited": 10000, "runs.single_fault": 30000, "runs.short_then_fail": 10000, "runs.fault_pair": 10000, "retries_that_succeeded": 30000},
+        "thorough": {"exhaustive_workloads": 90},
+    },
+}
+
+PROPS["C13"] = {
+    "level": "fault_enumeration",
+    "exhaustive": True,
+    "rule": "workload = mutating script on a fault-injecting backend (create storage/streams, writes through two handles with 1024-byte "
+            "buffers so that write-backs happen inside write/seek/read/set_len/flush, migration across 4096, set_len, reopen and "
+            "overwrite, remove, metadata, CompoundFile::flush; handles always flushed explicitly); a one-shot failure is injected at "
+            "EVERY position of the underlying write calls, of the seek calls and of the flush calls (every third write fault as 'short "
+            "write then fail'); each failed API call is retried up to 2x. Oracles: the API call inside which the underlying call failed "
+            "returns Err; no panic; whenever Stream::flush returns Ok a fresh handle reads back every byte accepted by earlier write "
+            "calls on that handle - also after a failed flush. One workload per shard in quick. evaluations = faulty runs; "
+            "distinct_nontrivial = distinct (workload, kind, position); exhaustive = all positions of all three kinds visited",
+    "assumptions": COMMON_ASSUMPTIONS + ["errors swallowed by Stream::drop are outside the property (handles are flushed explicitly, and leaked rather than dropped if that keeps failing)",
+                                         "after a failed structural call (create/remove/set_len) the affected content is no longer compared; only error reporting and no-panic are judged"],
+    "checked_share": 0.5,
+    "cpu_budget_s": 20,
+    "quick": {"budget_s": 45},
+    "thorough": {"budget_s": 400},
+    "floors": {
+        "quick": {"exhaustive_workloads": 16, "positions.write": 8000, "positions.seek": 8000, "positions.flush": 100, "ok_flush_readbacks": 50000, "ok_flush_after_failed_flush_readbacks": 5000},
+        "thorough": {"exhaustive_workloads": 60},
+    },
+}
